@@ -20,8 +20,10 @@ CLAIMED = {
             "i64 first/last/step/value; agreement of len/contains/iteration with a 128-bit reference for all i64 bounds and a set of "
             "steps (symbolic 64-bit division equivalence is out of reach). E2: the MIR of the four date/time from_term functions is executed "
             "symbolically with the map lookups as environment stubs; z3 decides that no returned value has a field different from the term's "
-            "integer (all i64 values, any subset of keys present). MapSet, exceptions, builders and proplist/map helpers are not decided.",
-            "kani+cbmc bounded model checking against a 128-bit reference; MIR->SMT for the date/time wrappers"),
+            "integer (all i64 values, any subset of keys present). E2 (stateful interpreter): the MIR of OwnedTerm::proplist_to_map / map_to_proplist on "
+            "lists and maps of 1..3 elements of every element class with symbolic keys and values: last value per key, bare atoms become true, "
+            "map -> proplist -> map is the identity. MapSet, exceptions and builders are not decided.",
+            "kani+cbmc bounded model checking against a 128-bit reference; MIR->SMT for the date/time wrappers and the proplist/map helpers, native replay"),
 }
 CLAIMED["C16"] = ("E2 mir-smt", "4 C16",
     "Bounded model checking over interleavings: the MIR of PidAllocator::allocate and Node::make_reference (regenerated from the working "
